@@ -282,6 +282,14 @@ class SpanQuery(Query):
     def _subm(self, s, context=None):
         return self.q.matcher(s, self._span_context(s, context))
 
+    # A span query matches a subset of what the query it is built around
+    # matches, so that query's estimates are upper bounds
+    def estimate_size(self, ixreader):
+        return self.q.estimate_size(ixreader)
+
+    def estimate_min_size(self, ixreader):
+        return 0
+
     def __repr__(self):
         return "%s(%r)" % (self.__class__.__name__, self.q)
 
